@@ -400,6 +400,53 @@ def check_history(ctx, root, nv, rs, n_prov):
     return True
 
 
+def thread_schedule_check(ctx, quick):
+    """validation in one thread while ANOTHER thread is inside a check-disabled region (the library enters such regions itself in the
+    top-down pass, in every EM iteration and when marginalize converts Chow-Liu leaves): the flags are per thread of control. The
+    schedule is forced with events: thread A enters the region and waits; the main thread validates invalid circuits; A leaves."""
+    import threading
+    from deeprob.context import ContextState
+    for k in range(3 if quick else 30):
+        rs = np.random.RandomState(np_seed(ctx.sub_rng('threads', k)))
+        nv = int(rs.randint(2, 5))
+        root = S.rand_spn(rs, list(range(nv)), depth=int(rs.randint(1, 4)), kinds=('bern',), share=0.4)
+        if not root.children:
+            continue
+        assign_ids(root)
+        bads = [(n_, b) for n_, b in corruptions(rs, root) if spec_verdict(b) != 'accept']
+        if not bads:
+            continue
+        entered, release = threading.Event(), threading.Event()
+
+        def other():
+            with ContextState(check_spn=False):
+                entered.set()
+                release.wait(20)
+        t = threading.Thread(target=other, daemon=True)
+        t.start()
+        entered.wait(20)
+        try:
+            ctx.count('thread-schedules')
+            for cname, bad in bads[:4]:
+                iv = impl_verdict(bad)
+                if not iv.startswith('reject'):
+                    ctx.violation('c03-thread-verdict', f'while another thread is inside ContextState(check_spn=False), validation in this thread says {iv} for a circuit '
+                                                        f'that is {spec_verdict(bad)} by the property ({cname})',
+                                  replay=dict(kind='c03-threads', table=raw_table(bad), gate=None))
+                    return
+                for g in ('likelihood', 'mpe', 'prune'):
+                    try:
+                        gate_call(g, copy.deepcopy(bad), nv + 8)
+                    except Exception:
+                        continue
+                    ctx.violation(f'c03-thread-gate:{g}', f'while another thread is inside ContextState(check_spn=False), {g} in this thread returned a result for an '
+                                                          f'invalid circuit ({cname})', replay=dict(kind='c03-threads', table=raw_table(bad), gate=g))
+                    return
+        finally:
+            release.set()
+            t.join(20)
+
+
 def run(ctx):
     quick = ctx.tier == 'quick'
     # (i) bounded-exhaustive
@@ -449,6 +496,9 @@ def run(ctx):
                 check_gates(ctx, bad, name, nv + 8)
             if ctx.n_new(with_input_only=True) >= 3:
                 return
+    thread_schedule_check(ctx, quick)
+    if ctx.n_new(with_input_only=True) >= 3:
+        return
     # (iv) histories: validation after earlier (failing and succeeding) calls of the same session
     for k in range(12 if quick else 200):
         rs = np.random.RandomState(np_seed(ctx.sub_rng('hist', k)))
@@ -465,6 +515,33 @@ def run(ctx):
 def replay(rep):
     r = rep['replay']
     root = from_raw_table(r['table'])
+    if r['kind'] == 'c03-threads':
+        import threading
+        from deeprob.context import ContextState
+        entered, release = threading.Event(), threading.Event()
+
+        def other():
+            with ContextState(check_spn=False):
+                entered.set()
+                release.wait(20)
+        t = threading.Thread(target=other, daemon=True)
+        t.start()
+        entered.wait(20)
+        try:
+            if r['gate'] is None:
+                iv, sv = impl_verdict(root), spec_verdict(root)
+                print('implementation (other thread inside a check-disabled region):', iv, ' property:', sv)
+                return iv == sv
+            try:
+                gate_call(r['gate'], root, 12)
+            except Exception as ex:
+                print('gate', r['gate'], 'raised', type(ex).__name__)
+                return True
+            print('gate', r['gate'], 'returned a result')
+            return False
+        finally:
+            release.set()
+            t.join(20)
     if r['kind'] == 'c03-history':
         valid = from_raw_table(r['valid'])
         for pn in r['history']:
